@@ -21,6 +21,7 @@ from vf.bounded import Driver
 TOL = 1e-9          # relative residual / solution tolerance for kernel vs dense reference
 TOL_PATH = 1e-12    # constant-parameter vs function-of-time driver agreement
 ZMAX = 700.0        # |z| bound for use_delj_trick=1 in the regular tasks (exp overflow regime: task delj_overflow)
+ZMIN = 1e-3         # smallest non-zero |z| for use_delj_trick=1 in the regular tasks (cancellation regime: task delj_smallz)
 AXN = 'xyzab'
 
 # wrapper-imposed shape equalities (integration_c.pyx passes phi.shape[..] as the end of the line range)
@@ -46,7 +47,9 @@ def tasks(tier):
     for D in (1, 2, 3, 4, 5):
         nd = {1: 200, 2: 200, 3: 150, 4: 60, 5: 30}[D] if q else {1: 5000, 2: 5000, 3: 4000, 4: 1500, 5: 600}[D]
         ts.append(Task('props.bounded_C02:drv_driver', name='C02/bounded/driver_%dpop' % D, D=D, n=nd, tier=tier, timeout=900))
+    ts.append(Task('props.bounded_C02:drv_driver_delj_const', name='C02/bounded/driver_delj_const', n=(60 if q else 1500), tier=tier, timeout=900))
     ts.append(Task('props.bounded_C02:drv_delj_overflow', name='C02/bounded/delj_overflow', n=(40 if q else 600), tier=tier, timeout=900))
+    ts.append(Task('props.bounded_C02:drv_delj_smallz', name='C02/bounded/delj_smallz', n=(40 if q else 600), tier=tier, timeout=900))
     return ts
 
 
@@ -76,9 +79,7 @@ def cc_delta(z):
 
 def ref_matrix(grids, k, nu, ms, gamma, h, dt, delj_on, beta=1.0):
     """Dense matrices A[other axes in increasing order..., n, n] of the scheme along axis k.
-    ms: dict other_axis -> migration rate into k from that axis.  Returns (A, zinfo) with zinfo = (max |z|, min nonzero |z|, S);
-    S[others..., j] = |M_{j+1/2}| * 8 eps / z_j^2 bounds the round-off of the documented delta_j formula (catastrophic
-    cancellation for small z) as it enters the flux coefficient; None when delta_j = 1/2."""
+    ms: dict other_axis -> migration rate into k from that axis.  Returns (A, zinfo) with zinfo = (max |z|, min nonzero |z|)."""
     import numpy as np
     D = len(grids)
     x = np.asarray(grids[k], dtype=float)
@@ -108,15 +109,13 @@ def ref_matrix(grids, k, nu, ms, gamma, h, dt, delj_on, beta=1.0):
     V = x * (1 - x) / nu * bf
     Vm = xm * (1 - xm) / nu * bf
     Mm = Mof(xm)
-    zinfo = (0.0, float('inf'), None)
+    zinfo = (0.0, float('inf'))
     if delj_on:
         z = 2 * Mm * dx / Vm
         delta = cc_delta(z)
         az = np.abs(z)
         nz = az[az > 0]
-        with np.errstate(all='ignore'):
-            S = np.where(az > 0, np.abs(Mm) * 8 * np.finfo(float).eps / np.where(az > 0, az, 1.0) ** 2, 0.0)
-        zinfo = (float(az.max()) if az.size else 0.0, float(nz.min()) if nz.size else float('inf'), S)
+        zinfo = (float(az.max()) if az.size else 0.0, float(nz.min()) if nz.size else float('inf'))
     else:
         delta = 0.5
     j = np.arange(n - 1)
@@ -142,10 +141,8 @@ def solve_lines(A, phi, k, dt):
     return np.moveaxis(u, -1, k)
 
 
-def compare(A, phi_old, got, want, k, dt, S=None, x=None):
-    """(residual, solution error) of `got` against the dense system; both relative, per line.  With S (see ref_matrix) the
-    residual of row j is first reduced by Delta_j (s_j + s_{j-1}), s_j = S_j (|u_j|+|u_{j+1}|): the part explained by round-off
-    of the documented delta_j formula itself."""
+def compare(A, phi_old, got, want, k, dt):
+    """(componentwise row residual, per-line solution error) of `got` against the dense system."""
     import numpy as np
     g = np.moveaxis(got, k, -1)
     w = np.moveaxis(want, k, -1)
@@ -155,12 +152,6 @@ def compare(A, phi_old, got, want, k, dt, S=None, x=None):
     res = np.abs(np.einsum('...jl,...l->...j', A, g) - r)
     scale = np.einsum('...jl,...l->...j', np.abs(A), np.abs(g)) + np.abs(r)
     scale = np.where(scale == 0, 1.0, scale)
-    if S is not None:
-        sj = S * (np.abs(g[..., :-1]) + np.abs(g[..., 1:]))
-        slack = np.zeros_like(res)
-        slack[..., :-1] += sj
-        slack[..., 1:] += sj
-        res = np.maximum(res - slack / trap_w(x), 0.0)
     resid = float(np.max(res / scale))
     lw = np.max(np.abs(w), axis=-1)
     lw = np.where(lw == 0, 1.0, lw)
@@ -335,7 +326,7 @@ def _run_kernel_case(int_c, c):
     mlist = [c['ms'][o] for o in range(D) if o != k]
     delj_arg = bool(c['delj']) if c.get('boolflag') else int(c['delj'])
     ret = _call_kernel(int_c, D, k, work, c['grids'], c['nu'], mlist, c['gamma'], c['h'], c['beta'], c['dt'], delj_arg)
-    resid, serr = compare(A, c['phi'], work, want, k, c['dt'], S=zi[2], x=c['grids'][k])
+    resid, serr = compare(A, c['phi'], work, want, k, c['dt'])
     frame = (ret is work) and all(np.array_equal(a, b) for a, b in zip(gcopy, c['grids']))
     return resid, serr, frame, zi
 
@@ -350,10 +341,11 @@ def drv_kernel(D, k, n, tier):
                      'the .pyx wrapper allows: %s), per-axis grids independently uniform/exponential/quadratic/random monotone on [0,1] '
                      '(min dx 1e-3) or strictly interior (no 0/1 endpoint), densities >=0 (dense/sparse/point/smooth, scale 1e-3..1e3), '
                      'nu 1e-2..1e2, distinct m per pair in [0,20], gamma in [-40,40], h in [0,1] incl. 0,1/2,1, beta 0.2..5 (1-D), '
-                     'dt 1e-6..1e-1, use_delj_trick 0/1 (for 1: max|2 M dx/V| <= %g, larger values in task delj_overflow); '
-                     'row residual and per-line solution error vs dense numpy reference <= %g' % (
+                     'dt 1e-6..1e-1, use_delj_trick 0/1 (for 1: every z = 2 M dx/V is 0 or has %g <= |z| <= %g; smaller in task delj_smallz, '
+                     'larger in task delj_overflow); componentwise row residual |A u - phi/dt|_j <= %g (|A||u|+|phi|/dt)_j and per-line '
+                     'solution error <= 1e-9 vs dense numpy reference; returned object is the array passed in; grids unmodified' % (
                          n, nm, {1: 9, 2: 9, 3: 9, 4: 8, 5: 7}[D],
-                         ('shape[%d]==shape[%d] required' % EQ[nm]) if nm in EQ else 'all axes free', ZMAX, TOL))
+                         ('shape[%d]==shape[%d] required' % EQ[nm]) if nm in EQ else 'all axes free', ZMIN, ZMAX, TOL))
     rng, nprng = d.rng, d.nprng()
     for ci in range(n):
         while True:
@@ -362,7 +354,7 @@ def drv_kernel(D, k, n, tier):
             if not c['delj']:
                 break
             _, zi = ref_matrix(c['grids'], k, c['nu'], c['ms'], c['gamma'], c['h'], c['dt'], 1, beta=c['beta'])
-            if zi[0] <= ZMAX:
+            if zi[0] <= ZMAX and zi[1] >= ZMIN:
                 break
         try:
             resid, serr, frame, zi = _run_kernel_case(int_c, c)
@@ -371,8 +363,6 @@ def drv_kernel(D, k, n, tier):
             continue
         ok = resid <= TOL and serr <= TOL
         fk = 'kernel-%s-mismatch' % nm
-        if not ok and c['delj'] and zi[1] < 1e-4:
-            fk = 'delj-cancellation'
         d.case(key=(nm, ci), ok=ok, info=_info(c, resid=resid, solerr=serr, zmax=zi[0], zmin=zi[1]), fail_key=fk)
         if not frame:
             d.case(key=(nm, ci, 'frame'), ok=False, info=_info(c), fail_key='kernel-%s-frame' % nm)
@@ -474,7 +464,7 @@ def drv_tridiag(n, tier):
             while True:
                 nu, gamma, h, dj = draw_nu(rng), draw_gamma(rng), draw_h(rng), rng.choice([0, 1])
                 A, zi = ref_matrix([x], 0, nu, {}, gamma, h, dt, dj)
-                if not dj or zi[0] <= ZMAX:
+                if not dj or (zi[0] <= ZMAX and zi[1] >= ZMIN):
                     break
             extra = dict(x=x.tolist(), nu=nu, gamma=gamma, h=h, dt=dt, delj=dj)
         else:
@@ -601,7 +591,7 @@ def _relmax(a, b):
 
 
 def _line_err(got, want):
-    """max over entries of |got-want| relative to the largest |want| on any line through the entry (weakest line scale)."""
+    """max over entries of |got-want| relative to the largest |want| on any axis-parallel line through the entry."""
     import numpy as np
     if not np.all(np.isfinite(got)):
         return float('inf')
@@ -609,9 +599,44 @@ def _line_err(got, want):
     sc = None
     for ax in range(want.ndim):
         m = np.max(aw, axis=ax, keepdims=True) * np.ones_like(aw)
-        sc = m if sc is None else np.minimum(sc, m)
+        sc = m if sc is None else np.maximum(sc, m)
     sc = np.where(sc == 0, 1.0, sc)
     return float(np.max(np.abs(got - want) / sc))
+
+
+def _draw_driver_case(rng, nprng, D, hi, delj, regime='regular'):
+    """One driver input with T <= one time step.  regime 'regular': ZMIN <= |z| <= ZMAX or z = 0 when delj; 'overflow': delj and max z > 710."""
+    for _ in range(2000):
+        pts = rng.randint(3, hi)
+        xx = make_grid(rng, pts, rng.choice(GRID_KINDS[:4]))
+        P = draw_params(rng, D, allow_flags=(regime == 'regular'))
+        if regime == 'overflow':
+            P['nu'] = [10.0 ** rng.uniform(1.3, 2) for _ in range(D)]
+            P['gamma'] = [rng.uniform(20, 40) for _ in range(D)]
+            P['h'] = [rng.uniform(0.2, 1.0) for _ in range(D)]
+            P['m'] = [[(rng.uniform(0, 1) if i != j else 0.0) for j in range(D)] for i in range(D)]
+        if D == 1 and rng.random() < 0.6:
+            P['beta'] = 10.0 ** rng.uniform(math.log10(0.2), math.log10(5.0))
+        tsf = 10.0 ** rng.uniform(-5, 0)
+        dt = own_dt(P, D, tsf)
+        if not (1e-7 <= dt <= 0.1):
+            continue
+        f = 1.0 if rng.random() < 0.3 else rng.uniform(0.05, 1.0)
+        step = dt * f
+        phi0 = make_phi(rng, nprng, (pts,) * D)
+        _, zi = ref_step(phi0, xx, P, step, delj)
+        if regime == 'overflow':
+            if zi[0] > 710:
+                break
+        elif not delj or (zi[0] <= ZMAX and zi[1] >= ZMIN):
+            break
+    else:
+        return None
+    t0 = rng.choice([0.0, 0.0, rng.uniform(0, 2)])
+    T = t0 + step
+    if T - t0 > dt:      # rounding of t0+step must not push the duration over one step
+        T = t0 + step * (1 - 1e-12)
+    return dict(xx=xx, P=P, tsf=tsf, dt=dt, phi0=phi0, t0=t0, T=T, delj=delj)
 
 
 def drv_driver(D, n, tier):
@@ -622,52 +647,39 @@ def drv_driver(D, n, tier):
     hi = {1: 12, 2: 10, 3: 9, 4: 7, 5: 6}[D]
     d = Driver('C02', 'driver_%dpop' % D,
                bound='%d random calls of Integration.%s on a copy of the input with T <= one time step (T = dt*f, f in {1} U (0.05,1), '
-                     'initial_t 0 or random, timescale_factor drawn so that dt spans 1e-6..1e-1): common grid of 3..%d points '
+                     'initial_t 0 or random, timescale_factor drawn so that dt spans 1e-7..1e-1): common grid of 3..%d points '
                      '(uniform/exponential/quadratic/random monotone, endpoints exactly 0 and 1), parameters in the property ranges with '
                      'distinct m per ordered pair, theta0 in {0,1,1e-2..1e3}, frozen/nomut flag subsets (m=0 on frozen), beta 0.2..5 (1-D), '
-                     'use_delj_trick off/on (on: max|2 M dx/V| <= %g); (i) all-constant vs all-lambda vs mixed arguments agree to %g of max|phi|, '
-                     '(ii) each agrees with inject+sweeps of the dense reference to %g (weakest line scale), (iii) input array unchanged '
-                     '(call made on a copy; in-place defect of four/five_pops is C20)' % (n, FUNCS[D], hi, ZMAX, TOL_PATH, TOL))
+                     'use_delj_trick off/on (on: z = 2 M dx/V is 0 or %g <= |z| <= %g; for 1-3 populations the all-constant style with the switch on is '
+                     'covered by task driver_delj_const); (i) all-constant vs all-lambda vs mixed constant/lambda arguments agree to %g '
+                     'of max|phi|, (ii) each agrees with inject+sweeps of the dense reference to %g entrywise, relative to the largest |phi| on '
+                     'any axis-parallel line through the entry, (iii) for 1-3 '
+                     'populations the array passed in is unchanged (four/five_pops in-place: C20)' % (n, FUNCS[D], hi, ZMIN, ZMAX, TOL_PATH, TOL))
     rng, nprng = d.rng, d.nprng()
     saved = (Integration.timescale_factor, Integration.use_delj_trick)
     try:
         for ci in range(n):
-            pts = rng.randint(3, hi)
-            xx = make_grid(rng, pts, rng.choice(GRID_KINDS[:4]))
             delj = rng.random() < 0.4
-            while True:
-                P = draw_params(rng, D)
-                if D == 1 and rng.random() < 0.6:
-                    P['beta'] = 10.0 ** rng.uniform(math.log10(0.2), math.log10(5.0))
-                tsf = 10.0 ** rng.uniform(-5, 0)
-                dt = own_dt(P, D, tsf)
-                if not (1e-7 <= dt <= 0.1):
-                    continue
-                f = 1.0 if rng.random() < 0.3 else rng.uniform(0.05, 1.0)
-                step = dt * f
-                phi0 = make_phi(rng, nprng, (pts,) * D)
-                want, zi = ref_step(phi0, xx, P, step, delj)
-                if not delj or zi[0] <= ZMAX:
-                    break
-            t0 = rng.choice([0.0, 0.0, rng.uniform(0, 2)])
-            T = t0 + step
-            if T - t0 > dt:      # rounding of t0+step must not push the duration over one step
-                T = t0 + step * (1 - 1e-12)
-            Integration.timescale_factor = tsf
+            c = _draw_driver_case(rng, nprng, D, hi, delj)
+            xx, P, phi0, t0, T = c['xx'], c['P'], c['phi0'], c['t0'], c['T']
+            Integration.timescale_factor = c['tsf']
             Integration.use_delj_trick = delj
-            info = _pinfo(P, D, xx=xx.tolist(), T=T, initial_t=t0, dt_rule=dt, timescale_factor=tsf, delj=delj, phi0=_small(phi0), zmax=zi[0], zmin=zi[1])
-            styles = {'const': lambda nm, v: v,
-                      'func': lambda nm, v: (lambda t, _v=v: _v),
-                      'mixed': None}
+            want, zi = ref_step(phi0, xx, P, T - t0, delj)
+            info = _pinfo(P, D, xx=xx.tolist(), T=T, initial_t=t0, dt_rule=c['dt'], timescale_factor=c['tsf'], delj=delj, phi0=_small(phi0),
+                          zmax=zi[0], zmin=zi[1])
             pick = {}
+            force_func = delj and D <= 3
 
-            def mixed(nm, v, _p=pick):
+            def mixed(nm, v, _p=pick, _ff=force_func):
                 if nm not in _p:
-                    _p[nm] = rng.random() < 0.5
+                    _p[nm] = (rng.random() < 0.5) or (_ff and not _p)
                 return (lambda t, _v=v: _v) if _p[nm] else v
-            styles['mixed'] = mixed
+            styles = {'const': lambda nm, v: v, 'func': lambda nm, v: (lambda t, _v=v: _v), 'mixed': mixed}
+            if force_func:
+                del styles['const']
             out = {}
             fail = None
+            modified = False
             for st, wrap in styles.items():
                 arg = phi0.copy()
                 try:
@@ -676,38 +688,87 @@ def drv_driver(D, n, tier):
                     fail = (st, repr(e))
                     break
                 out[st] = np.array(res, dtype=float, copy=True)
+                if D <= 3 and not np.array_equal(arg, phi0):
+                    modified = True
             if fail:
                 d.case(key=(D, ci), ok=False, info=dict(info, style=fail[0], error=fail[1]), fail_key='driver%d-exception' % D)
                 continue
-            # the duration actually integrated is T - t0 (may differ from `step` by rounding); recompute the reference with it
-            want, zi = ref_step(phi0, xx, P, T - t0, delj)
-            e_cf = _relmax(out['func'], out['const'])
-            e_cm = _relmax(out['mixed'], out['const'])
-            e_ref = max(_line_err(out[s], want) for s in out)
+            base = 'const' if 'const' in out else 'func'
+            errs = {s: _relmax(out[s], out[base]) for s in out if s != base}
             nontriv = not all(P['frozen'])
-            okp = e_cf <= TOL_PATH and e_cm <= TOL_PATH
-            okr = e_ref <= TOL
-            cancel = delj and zi[1] < 1e-3
-            d.case(key=(D, ci, 'path'), ok=okp, info=dict(info, err_const_func=e_cf, err_const_mixed=e_cm), nontrivial=nontriv,
-                   fail_key=('delj-cancellation-path' if cancel else 'driver%d-const-vs-func' % D))
-            d.case(key=(D, ci, 'ref'), ok=okr, info=dict(info, err_ref=e_ref), nontrivial=nontriv,
-                   fail_key=('delj-cancellation' if cancel else 'driver%d-vs-reference' % D))
+            e_ref, tol_ref = max(_line_err(out[s], want) for s in out), TOL
+            d.case(key=(D, ci, 'path'), ok=all(e <= TOL_PATH for e in errs.values()), info=dict(info, base=base, err_vs_base=errs,
+                   mixed_funcs=sorted(k for k, v in pick.items() if v)), nontrivial=nontriv, fail_key='driver%d-const-vs-func' % D)
+            d.case(key=(D, ci, 'ref'), ok=e_ref <= tol_ref, info=dict(info, err_ref=e_ref, tol=tol_ref), nontrivial=nontriv,
+                   fail_key='driver%d-vs-reference' % D)
+            if modified:
+                d.case(key=(D, ci, 'frame'), ok=False, info=info, fail_key='driver%d-input-modified' % D)
+    finally:
+        Integration.timescale_factor, Integration.use_delj_trick = saved
+    return d.results()
+
+
+def drv_driver_delj_const(n, tier):
+    """Constant-parameter drivers (numpy coefficient assembly + tridiag / implicit_precalc_*) with use_delj_trick on."""
+    import numpy as np
+    import dadi
+    from dadi import Integration
+    d = Driver('C02', 'driver_delj_const',
+               bound='use_delj_trick=True with all-constant arguments (the precomputed-coefficient path) for one_pop, two_pops, three_pops: '
+                     '%d calls each with T <= one time step, inputs as in driver_<k>pop, half of them in the regime %g <= |2 M dx/V| <= %g '
+                     '(or 0) and half with max (2 M dx/V) > 710 (exp overflow, no flags); result vs dense reference <= %g (metric of '
+                     'driver_<k>pop) and vs the all-lambda call <= %g (regular regime)' % (n, ZMIN, ZMAX, TOL, TOL_PATH))
+    rng, nprng = d.rng, d.nprng()
+    saved = (Integration.timescale_factor, Integration.use_delj_trick)
+    try:
+        for D in (1, 2, 3):
+            fn = getattr(Integration, FUNCS[D])
+            hi = {1: 12, 2: 10, 3: 9}[D]
+            for ci in range(n):
+                regime = 'regular' if ci % 2 == 0 else 'overflow'
+                c = _draw_driver_case(rng, nprng, D, hi, True, regime)
+                if c is None:
+                    continue
+                xx, P, phi0, t0, T = c['xx'], c['P'], c['phi0'], c['t0'], c['T']
+                Integration.timescale_factor = c['tsf']
+                Integration.use_delj_trick = True
+                want, zi = ref_step(phi0, xx, P, T - t0, True)
+                info = _pinfo(P, D, xx=xx.tolist(), T=T, initial_t=t0, timescale_factor=c['tsf'], delj=True, phi0=_small(phi0),
+                              zmax=zi[0], zmin=zi[1], regime=regime)
+                try:
+                    with np.errstate(all='ignore'):
+                        got = np.array(fn(phi0.copy(), xx, T, initial_t=t0, **driver_kwargs(P, D, lambda nm, v: v)), dtype=float)
+                except IndexError as e:
+                    d.case(key=(D, ci), ok=False, info=dict(info, error=repr(e)), fail_key='delj-const-driver-indexerror')
+                    continue
+                except Exception as e:
+                    d.case(key=(D, ci), ok=False, info=dict(info, error=repr(e)), fail_key='delj-const-driver-exception')
+                    continue
+                err = _line_err(got, want)
+                if regime == 'overflow':
+                    d.case(key=(D, ci), ok=err <= TOL, info=dict(info, err_ref=err), fail_key='delj-exp-overflow-const-driver')
+                    continue
+                d.case(key=(D, ci, 'ref'), ok=err <= TOL, info=dict(info, err_ref=err),
+                       fail_key='delj-const-driver-vs-reference')
+                fun = np.array(fn(phi0.copy(), xx, T, initial_t=t0, **driver_kwargs(P, D, lambda nm, v: (lambda t, _v=v: _v))), dtype=float)
+                e2 = _relmax(fun, got)
+                d.case(key=(D, ci, 'path'), ok=e2 <= TOL_PATH, info=dict(info, err_const_func=e2),
+                       fail_key='delj-const-driver-vs-func')
     finally:
         Integration.timescale_factor, Integration.use_delj_trick = saved
     return d.results()
 
 
 def drv_delj_overflow(n, tier):
-    """use_delj_trick=1 with |2 M dx / V| > 709: exp() overflows in compute_delj (C) / _compute_delj (Python)."""
+    """use_delj_trick=1 with 2 M dx / V > 709: exp() overflows in compute_delj (integration_shared.c)."""
     import numpy as np
     import dadi
     import dadi.integration_c as int_c
-    from dadi import Integration
     d = Driver('C02', 'delj_overflow',
                bound='use_delj_trick=1 in the regime max (2 M dx/V) > 710 (reachable inside the property ranges, e.g. nu=100, gamma=40 on '
-                     '<=9-point grids): %d inputs per kernel for all 15 per-axis kernels and %d calls each of the constant-parameter '
-                     'drivers one_pop/two_pops/three_pops (T <= dt); result must be the finite solution of the scheme with the '
-                     'Chang-Cooper weight (limit 1-1/z), tolerance %g' % (n, n, TOL))
+                     '<=9-point grids): %d inputs per kernel for all 15 per-axis kernels (nu 20..100, gamma 20..40, h 0.2..1, m 0..1, other '
+                     'inputs as in kernel_*); result must be the finite solution of the scheme with the Chang-Cooper weight '
+                     '(limit 1-1/z), tolerance %g' % (n, TOL))
     rng, nprng = d.rng, d.nprng()
     for D, k in KERNELS:
         for ci in range(n):
@@ -730,39 +791,37 @@ def drv_delj_overflow(n, tier):
                 continue
             d.case(key=(kname(D, k), ci), ok=(resid <= TOL and serr <= TOL), info=_info(c, resid=resid, solerr=serr, zmax=zi[0]),
                    fail_key='delj-exp-overflow-kernel-nan')
-    saved = (Integration.timescale_factor, Integration.use_delj_trick)
-    try:
-        for D in (1, 2, 3):
-            fn = getattr(Integration, FUNCS[D])
-            for ci in range(n):
-                for _ in range(200):
-                    pts = rng.randint(3, 8)
-                    xx = make_grid(rng, pts, rng.choice(GRID_KINDS[:4]))
-                    P = draw_params(rng, D, allow_flags=False)
-                    P['nu'] = [10.0 ** rng.uniform(1.3, 2) for _ in range(D)]
-                    P['gamma'] = [rng.uniform(20, 40) for _ in range(D)]
-                    P['h'] = [rng.uniform(0.2, 1.0) for _ in range(D)]
-                    P['m'] = [[(rng.uniform(0, 1) if i != j else 0.0) for j in range(D)] for i in range(D)]
-                    tsf = 10.0 ** rng.uniform(-3, -1)
-                    dt = own_dt(P, D, tsf)
-                    step = dt * rng.uniform(0.3, 1.0)
-                    phi0 = make_phi(rng, nprng, (pts,) * D)
-                    want, zi = ref_step(phi0, xx, P, step, True)
-                    if zi[0] > 710:
-                        break
-                else:
-                    continue
-                Integration.timescale_factor = tsf
-                Integration.use_delj_trick = True
-                info = _pinfo(P, D, xx=xx.tolist(), T=step, timescale_factor=tsf, phi0=_small(phi0), zmax=zi[0])
-                try:
-                    with np.errstate(all='ignore'):
-                        got = np.array(fn(phi0.copy(), xx, step, **driver_kwargs(P, D, lambda nm, v: v)), dtype=float)
-                except Exception as e:
-                    d.case(key=('const', D, ci), ok=False, info=dict(info, error=repr(e)), fail_key='delj-overflow-exception')
-                    continue
-                err = _line_err(got, want)
-                d.case(key=('const', D, ci), ok=err <= TOL, info=dict(info, err_ref=err), fail_key='delj-exp-overflow-const-driver')
-    finally:
-        Integration.timescale_factor, Integration.use_delj_trick = saved
+    return d.results()
+
+
+def drv_delj_smallz(n, tier):
+    """use_delj_trick=1 with 0 < |2 M dx / V| < 1e-3: compute_delj evaluates (-e w + e V - V)/(w - e w), e = exp(w/V), which
+    cancels catastrophically (error ~ eps/z^2 in delta_j, ~ eps/z relative in the flux coefficient)."""
+    import numpy as np
+    import dadi
+    import dadi.integration_c as int_c
+    d = Driver('C02', 'delj_smallz',
+               bound='use_delj_trick=1 with weak advection, 0 < min|2 M dx/V| < %g: %d inputs per kernel for all 15 per-axis kernels; inputs as '
+                     'in kernel_* except gamma = +-10^U(-16,-3) and every m either 0 or 10^U(-16,-3); same checks and tolerance %g '
+                     '(delta_j -> 1/2 + z/12)' % (ZMIN, n, TOL))
+    rng, nprng = d.rng, d.nprng()
+    for D, k in KERNELS:
+        for ci in range(n):
+            for _ in range(200):
+                c = _kernel_case(rng, nprng, D, k)
+                c['delj'] = 1
+                c['gamma'] = rng.choice([-1, 1]) * 10.0 ** rng.uniform(-16, -3)
+                c['ms'] = {o: rng.choice([0.0, 10.0 ** rng.uniform(-16, -3)]) for o in c['ms']}
+                _, zi = ref_matrix(c['grids'], k, c['nu'], c['ms'], c['gamma'], c['h'], c['dt'], 1, beta=c['beta'])
+                if zi[1] < ZMIN and zi[0] <= ZMAX:
+                    break
+            else:
+                continue
+            try:
+                resid, serr, frame, zi = _run_kernel_case(int_c, c)
+            except Exception as e:
+                d.case(key=(kname(D, k), ci), ok=False, info=_info(c, error=repr(e)), fail_key='delj-smallz-exception')
+                continue
+            d.case(key=(kname(D, k), ci), ok=(resid <= TOL and serr <= TOL), info=_info(c, resid=resid, solerr=serr, zmin=zi[1], zmax=zi[0]),
+                   fail_key='delj-cancellation')
     return d.results()
